@@ -207,11 +207,6 @@ class OperatorMapper:
             expression = left.in_(right)
         elif isinstance(left, str) and not isinstance(right, str):
             expression = func.instr(literal(left), right) > 0
-        elif not isinstance(left, str) and isinstance(right, str):
-            if hasattr(left, "contains"):
-                expression = left.contains(right)
-            else:
-                expression = left.like("%" + right + "%")
         elif isinstance(left, str) and isinstance(right, str):
             expression = literal(right in left)
         else:
